@@ -303,6 +303,20 @@ def roundU (mb : Nat) (qmin : Int) (m : Nat) (e : Int) : Nat :=
       if rem > half ∨ (rem = half ∧ fl % 2 = 1) then fl + 1 else fl
   (q - qmin).toNat * 2 ^ mb + r
 
+/-- the two halves of `roundU`, named for the specification theorem `C04_pytensor_f8_halfulp`:
+    the exponent `q` of the unit in the last place, and the rounded significand `r` (in units of `2^q`) -/
+def roundQ (mb : Nat) (qmin : Int) (m : Nat) (e : Int) : Int := max (e + bitLen m - 1 - mb) qmin
+
+def roundR (mb : Nat) (qmin : Int) (m : Nat) (e : Int) : Nat :=
+  let q := roundQ mb qmin m e
+  if q ≤ e then m * 2 ^ (e - q).toNat
+  else
+    let s := (q - e).toNat
+    let fl := m / 2 ^ s
+    let rem := m % 2 ^ s
+    let half := 2 ^ (s - 1)
+    if rem > half ∨ (rem = half ∧ fl % 2 = 1) then fl + 1 else fl
+
 /-- the six narrow float types -/
 inductive F8 where
   | e4m3fn | e4m3fnuz | e5m2 | e5m2fnuz | e8m0 | e2m1
